@@ -594,6 +594,26 @@ func (sc *SpecCtx) call(e *SExpr) (*Val, error) {
 			return nil, fmt.Errorf("result_of: no call matching %s seen before this point", selName(e.Args[0]))
 		}
 		return &Val{T: g.ghostTerm(sc.cur, gn), Ty: g.ghostTypes[gn]}, nil
+	case "exported":
+		// exported(selector, name): the value the callee's contract exports under
+		// that name, as of the latest call matching selector
+		if sc.callee {
+			return nil, fmt.Errorf("call history of the callee is not visible at a call site")
+		}
+		if len(e.Args) != 2 {
+			return nil, fmt.Errorf("exported(selector, name)")
+		}
+		return &Val{T: g.ghostTerm(sc.cur, fmt.Sprintf("$exp:%s:%s", selName(e.Args[0]), selName(e.Args[1]))), Ty: intType}, nil
+	case "sumlen":
+		// sumlen(selector, i): the total length of the i-th result (a slice) over all
+		// calls matching selector so far
+		if sc.callee {
+			return nil, fmt.Errorf("call history of the callee is not visible at a call site")
+		}
+		if len(e.Args) != 2 || e.Args[1].Kind != SNum {
+			return nil, fmt.Errorf("sumlen(selector, index)")
+		}
+		return &Val{T: g.ghostTerm(sc.cur, fmt.Sprintf("$sumlen:%s:%s", selName(e.Args[0]), e.Args[1].Name)), Ty: intType}, nil
 	case "arg_of":
 		// arg_of(selector, i): the i-th argument of the latest call matching selector
 		if sc.callee {
